@@ -598,6 +598,10 @@ def k1_handler_label(res, tier):
         else:
             prog += [ins('Drop'), ins('PopHandler'), ins('Jump', label(2))]      # e.g. break / continue out of the try with k values live
         prog += [ins('Label', label(0))]                     # catch entry: only reachable by unwinding
+        two = e.fork_bool(z3.Bool('second_catch_clause'))
+        if two:
+            # a first clause that does not match: class operand, CheckHandler jumps to the next clause (dropping the operand on both edges)
+            prog += [ins('Nil'), ins('CheckHandler', label(3)), ins('FinishUnwind'), ins('PopHandler'), ins('GetError'), ins('Drop'), ins('Jump', label(2)), ins('Label', label(3))]
         prog += [ins('Nil')] * j                             # what the catch body has pushed so far
         prog += [ins('PushHandler', Struct('()', {0: Cell(bv(0, 16)), 1: Cell(label(1))}, None)), ins('PopHandler'), ins('Label', label(1)), ins('Label', label(2))]
         prog = [e.copy_value(p) for p in prog]
@@ -610,11 +614,11 @@ def k1_handler_label(res, tier):
         e.check(z3.ZeroExt(48, d[0]) == 1 + arity, 'the first handler records the entry depth')
         e.check(z3.ZeroExt(48, d[1]) == 1 + arity + j, 'a handler registered inside a catch block records the depth the unwinder established plus what the catch body pushed',
                 {'live_at_exit_of_try_body': k, 'exit': ['Return', 'Raise', 'Jump'][x], 'catch_pushes': j, 'recorded': str(z3.simplify(d[1]))})
-        return {'live': k, 'exit': ['Return', 'Raise', 'Jump'][x], 'catch_pushes': j}
+        return {'live': k, 'exit': ['Return', 'Raise', 'Jump'][x], 'catch_pushes': j, 'second_clause': two}
     results = e.explore(path)
     for r in results:
         for lab, ok, info in list(r.checks):
-            if not ok and 'inside a catch block' in lab:
+            if not ok and 'inside a catch block' in lab and not (isinstance(r.info, dict) and r.info.get('second_clause')):
                 res.fail('C04.K1:depth at a catch label is inherited from the dead end of the try body',
                          'apply_stack_effects enters a catch label with the simulated depth of the instruction in front of it when no jump targets the label: after a '
                          'try body that ends in return / raise with locals live the depth is too high and later handlers record slot depths above the real stack', info, replay=F41_REPLAY)
